@@ -63,97 +63,118 @@ def mk(chk, model, obs, desc, nontrivial):
 # ------------------------------------------------------------------------------------------------
 # a generator of programs in the shapes inline.py looks for
 # ------------------------------------------------------------------------------------------------
+class Knobs:
+    """choices with a small budget of deviations from the shapes the pass accepts"""
+
+    def __init__(self, rng):
+        self.rng = rng
+        self.budget = rng.choice([0, 0, 0, 1, 1, 2])
+
+    def pick(self, good, bad=()):
+        if bad and self.budget > 0 and self.rng.random() < 0.15:
+            self.budget -= 1
+            return self.rng.choice(list(bad))
+        return self.rng.choice(list(good))
+
+
+COMPATIBLE = {"#min": ["#min"], "#max": ["#max"], "#count": ["#count", "#sum", "#sum+"], "#sum": ["#sum", "#sum+"],
+              "#sum+": ["#sum", "#sum+"]}
+ALLFUN = ["#sum", "#sum+", "#count", "#min", "#max"]
+OTHERS = {1: "A : test(A,B)", 2: "A,t : test(A,B)", 3: "A,t,t : test(A,B), t1(A), t2(B)",
+          4: "Y,TN,x,y : test(Y,TN)"}
+
+
 def shaped_program(rng):
-    """one choice rule, one or two 'single' rules carrying an aggregate value and one user of each"""
+    """one choice rule, one or two 'single' rules carrying an aggregate value and one user of each;
+    mostly in the shapes inline.py accepts, with zero to two deviations"""
+    k = Knobs(rng)
     r = rng.random
-    lines = []
-    choice = rng.choice(["{ a((1..3)) }.", "{ a(X) : d(X) }. d(1..3).", "a(1..3).", "{ a(1..3) }. { c(1..2) }."])
-    lines.append(choice)
-    n_single = rng.choice([1, 1, 1, 2])
-    modes = []
-    for k in range(n_single):
-        h = ["inl", "val"][k]
+    lines = [k.pick(["{ a((1..3)) }.", "{ a(X) : d(X) }. d(1..3).", "{ a(1..3) }. { c(1..2) }."], ["a(1..3)."])]
+    for idx in range(rng.choice([1, 1, 1, 2])):
+        h = ["inl", "val"][idx]
+        mode = rng.choice(["agg", "agg", "agg", "body", "body", "negbody", "min", "wc"])
         fun = rng.choice(["#sum", "#sum", "#sum", "#count", "#min", "#max", "#sum+"])
+        if mode in ("min", "body") and r() < 0.8:
+            fun = rng.choice(["#sum", "#count", "#sum+"])
         yv = rng.choice(["Y", "Y", "F", "V", "Y0"])
-        n_el = rng.choice([1, 1, 2])
         els = []
-        for e in range(n_el):
-            tup = rng.choice([f"{yv}", f"{yv},{'ph'[e]}", f"{yv},A", f"A,{yv}", f"{yv},Z", "1,A", f"{yv}+1"])
+        for e in range(rng.choice([1, 1, 2])):
+            tup = k.pick([yv, f"{yv},{'ph'[e]}", f"{yv},A", f"{yv},Z"], [f"A,{yv}", "1,A", f"{yv}+1"])
             cond = rng.choice([f"person(A,{yv})", f"person(A,{yv}), not bad({yv})", f"human(A,{yv},Z)",
-                               f"person(C,{yv})", f"person(A,{yv}), {yv} > 1"])
+                               f"person(A,{yv}), {yv} > 1"])
+            if r() < 0.08:
+                cond = f"person(C,{yv})"
             els.append(f"{tup} : {cond}")
         agg = f"{fun} {{ {'; '.join(els)} }}"
-        guard = rng.choice(["B = AGG", "B = AGG", "B = AGG", "AGG = B", "B = AGG > 13", "B < AGG", "1 = AGG = B",
-                            "B = AGG = B2"]).replace("AGG", agg)
-        extra = rng.choice(["a(A)", "a(A)", "a(A)", "a(A), cnt(A,TN)", "a(A), not b(A)", "a(A), A < 3", "",
-                            "a(A) : b", "a(A,B)", "a(A), c(C)", "a(A), X = A"])
-        hargs = rng.choice(["A,B", "A,B", "A,B", "B,A", "B", "A,B,C", "A,A", "1,B", "A,B,_"])
-        sign = rng.choice(["", "", "", "", "not "]) if r() < 0.1 else ""
-        body = ", ".join(x for x in [extra, guard] if x)
-        lines.append(f"{sign}{h}({hargs}) :- {body}.")
-        ar = len(hargs.split(","))
-        # the atom that uses h: value position follows hargs
+        guard = k.pick(["B = AGG", "B = AGG", "AGG = B"],
+                       ["B = AGG > 13", "B < AGG", "1 = AGG = B", "B = AGG = B2"]).replace("AGG", agg)
+        if mode == "negbody":
+            extra = k.pick([""], ["a(A)"])
+            hargs = k.pick(["B"], ["B,B", "1,B"])
+        else:
+            extra = k.pick(["a(A)", "a(A)", "a(A), cnt(A,TN)", "a(A), not b(A)", "a(A), A < 3", "a(A), c(C)",
+                            "a(A), X = A"], ["", "a(A) : b", "a(A,B)"])
+            hargs = k.pick(["A,B", "A,B", "B,A", "A,B,C" if "c(C)" in extra else "A,B"], ["A,A", "1,B", "A,B,_"])
+        sign = k.pick([""], ["not "])
+        lines.append(f"{sign}{h}({hargs}) :- {', '.join(x for x in [extra, guard] if x)}.")
         names = {"A": "V", "B": "F", "C": "W", "1": "1", "_": "U"}
         pargs = [names[x] for x in hargs.split(",")]
-        if r() < 0.15:
-            pargs = [rng.choice([x, "_", "1", x + "+1", "V"]) for x in pargs]
+        pargs = [k.pick([x], ["_", "1", x + "+1", "V"]) for x in pargs]
         use = f"{h}({','.join(pargs)})"
-        mode = rng.choice(["agg", "agg", "agg", "body", "body", "min", "wc"])
-        modes.append(mode)
         if mode == "agg":
-            ofun = rng.choice([fun, fun, "#sum", "#sum+", "#min", "#max", "#count"])
-            w = rng.choice(["F", "F", "F", "F", "F+2", "V", "1"])
+            ofun = k.pick(COMPATIBLE[fun], [f for f in ALLFUN if f not in COMPATIBLE[fun]])
+            w = k.pick(["F"], ["F+2", "V", "1"])
             tup = rng.choice([f"{w},V", f"{w},V", f"{w},V", f"{w}", f"{w},V,i", f"{w},V,Y"])
-            cond = rng.choice([use, use, use, f"not {use}", f"{use}, good(V)", f"good(V), {use}", f"{use}, {use}"])
-            others = rng.choice(["A : test(A,B)", "A : test(A,B)", "A,B : test(A,B)", "A,t : test(A,B)",
-                                 "A,t,t : test(A,B), t1(A), t2(B)", "", "F,c : other(F)", "Y,TN : test(Y,TN)"])
+            n = tup.count(",") + 1
+            cond = k.pick([use, use, f"{use}, good(V)", f"good(V), {use}"], [f"not {use}", f"{use}, {use}"])
+            others = k.pick([OTHERS[i] for i in OTHERS if i != n] + [""], [OTHERS[n], "F,c,d,e,f : other(F)"[: 99]])
             elems = [f"{tup} : {cond}"] + ([others] if others else [])
             if r() < 0.3:
                 elems.reverse()
             oguard = rng.choice(["X = AGG", "X = AGG", "AGG = X", "X < AGG", "3 = AGG"])
-            oagg = f"{ofun} {{ {'; '.join(elems)} }}"
-            obody = [oguard.replace("AGG", oagg)]
+            obody = [oguard.replace("AGG", f"{ofun} {{ {'; '.join(elems)} }}")]
             if r() < 0.3:
-                obody.append(rng.choice(["bar", "d(Y)", "X > 2", f"not {use}"]))
+                obody.append(k.pick(["bar", "d(Y)", "X > 2"], [f"not {use}"]))
             if r() < 0.1:
                 obody.append("Z = #sum { Q : q(Q) }")
-            lines.append(f"foo{k}(X) :- {', '.join(obody)}.")
-        elif mode == "body":
-            s = rng.choice(["", "", "", "not ", "not not "])
-            arith = rng.choice(["F = #sum { Z,O : zombie(Z,O) }", "0 = #sum { Z,O : zombie(Z,O) } = F",
-                                "N != F + D, D = #sum { Z : zombie(Z) }", "F > 3",
-                                "N = F + 1, N < #count { Z : zombie(Z) }", "E = #sum { Z : zombie(Z) }, E < 2",
-                                "F != #sum { Z : zombie(Z,V) }", "G = F, G = #max { Z : zombie(Z) }"])
-            pre = rng.choice(["count(V,N)", "count(V,N)", "", "count(V,N), Y = 1"])
+            lines.append(f"foo{idx}(X) :- {', '.join(obody)}.")
+        elif mode in ("body", "negbody"):
+            s = k.pick(["not "], ["", "not not "]) if mode == "negbody" else k.pick([""], ["not not ", "not "])
+            arith = k.pick(["F = #sum { Z,O : zombie(Z,O) }", "0 = #sum { Z,O : zombie(Z,O) } = F",
+                            "N != F + D, D = #sum { Z : zombie(Z) }", "N = F + 1, N < #count { Z : zombie(Z) }",
+                            "F != #sum { Z : zombie(Z,V) }", "G = F, G = #max { Z : zombie(Z) }"],
+                           ["F > 3", "E = #sum { Z : zombie(Z) }, E < 2"])
+            pre = rng.choice(["count(V,N)", "count(V,N)", "count(V,N), Y = 1"])
             obody = [x for x in [pre, s + use, arith] if x]
             if r() < 0.2:
                 rng.shuffle(obody)
-            head = rng.choice(["", "", "ok(V)"])
-            if r() < 0.25:
+            if r() < 0.2:
                 lines.append(f":~ {', '.join(obody)}. [{rng.choice(['F', 'F', 'N', '1'])}@1,V]")
             else:
-                lines.append(f"{head} :- {', '.join(obody)}.")
+                lines.append(f"{rng.choice(['', '', 'ok(V)'])} :- {', '.join(obody)}.")
         elif mode == "min":
-            cond = rng.choice([use, use, f"{use}, bar", f"not {use}"])
-            others = rng.choice(["A,B,test : test(A,B)", "A,B : test(A,B)", "", "A@1,B : test(A,B)"])
-            w = rng.choice(["F", "F", "F", "F@2", "F+1"])
+            cond = k.pick([use, use, f"{use}, bar"], [f"not {use}"])
+            others = rng.choice(["A,B,test : test(A,B)", "A,B,test : test(A,B)", "A,B : test(A,B)", "",
+                                 "A@1,B : test(A,B)"])
+            w = k.pick(["F", "F", "F@2"], ["F+1"])
             tup = rng.choice([f"{w},V", f"{w},V", f"{w}", f"{w},V,x"])
             elems = [f"{tup} : {cond}"] + ([others] if others else [])
             lines.append(f"{rng.choice(['#minimize', '#minimize', '#maximize'])} {{ {'; '.join(elems)} }}.")
         else:
-            wfun = rng.choice(["#sum", "#sum", "#count", "#sum+", "#min"])
-            el = rng.choice(["Y : person(A,Y)", "Y,Z : person(A,Y,Z)", "Y : person(A,Y); Y,c : human(A,Y)",
-                             "Y : person(C,Y)", ": person(A,Y)", "Y,A : person(A,Y), not bad(Y)"])
-            g = rng.choice(["B = AGG", "B = AGG", "AGG = B", "B = AGG > 1", "B < AGG"]).replace(
+            lines.pop()          # the weak constraint carries its aggregate itself
+            wfun = k.pick(["#sum", "#sum", "#count", "#sum+"], ["#min"])
+            el = k.pick(["Y : person(A,Y)", "Y,Z : person(A,Y,Z)", "Y : person(A,Y); Y,c : human(A,Y)",
+                         "Y : person(C,Y)", "Y,A : person(A,Y), not bad(Y)"], [": person(A,Y)"])
+            g = k.pick(["B = AGG", "B = AGG", "AGG = B"], ["B = AGG > 1", "B < AGG"]).replace(
                 "AGG", f"{wfun} {{ {el} }}")
-            pre = rng.choice(["a(A)", "a(A)", "a(A,C)", "a(A), c(C)", "a(A,B)"])
-            wt = rng.choice(["B", "B", "B", "A", "B+1"])
+            pre = k.pick(["a(A)", "a(A)", "a(A,C)", "a(A), c(C)"], ["a(A,B)"])
+            wt = k.pick(["B"], ["A", "B+1"])
             tail = rng.choice(["A", "A", "", "A,x", "A,C"])
             lines.append(f":~ {pre}; {g}. [{wt}@{rng.choice([0, 0, 1])}{',' + tail if tail else ''}]")
             if r() < 0.5:
                 lines.append(rng.choice([":~ b(A). [A@0,A]", ":~ b(A,D). [A@0,D,x]", ":~ b(X). [X@0,Y,Z]",
                                          ":~ c(A); E = #sum { Y : human(A,Y) }. [E@0,A,z]"]))
-    if r() < 0.15:
+    if k.budget > 0 and r() < 0.3:
         lines.append(rng.choice(["#show inl/2.", "#show v(A) : inl(A,B).", "#show foo0/1.", "x :- inl(A,B).",
                                  "inl(A,B) :- z(A,B).", "#external inl(A,B) : a(A), d(B)."]))
     if r() < 0.3:
@@ -200,7 +221,7 @@ def has_theory(stm):
 _PREP_CACHE = {}
 
 
-def prepared(inputs, rng, n_shaped=250):
+def prepared(inputs, rng, n_shaped=600):
     """(text, preprocessed program, coq text) for every distinct input, shaped programs first"""
     from ngo.normalize import preprocess
     quiet()
@@ -251,6 +272,25 @@ def rand_io(rng, pp, rnd):
     if rnd == 0:
         return [], []
     return rand_preds(rng, pp, [0, 1, 1, 2]), rand_preds(rng, pp, [0, 0, 1, 2])
+
+
+_SINGLE_CACHE = {}
+
+
+def io_rounds(rng, pp):
+    """([], []) first; programs that have a single rule get a second round with random lists"""
+    yield [], []
+    key = id(pp)
+    if key not in _SINGLE_CACHE:
+        x, _ = build(pp, [], [])
+        try:
+            _SINGLE_CACHE[key] = x is not None and bool(singles_of(x, pp))
+        except Exception:  # pylint: disable=broad-except
+            _SINGLE_CACHE[key] = False
+    if _SINGLE_CACHE[key] or rng.random() < 0.1:
+        ins, outs = rand_io(rng, pp, 1)
+        if ins or outs:
+            yield ins, outs
 
 
 def preds_s(ps):
@@ -463,10 +503,7 @@ class IsSingle:
     def cases(self, inputs, rng):
         from ngo.dependency import RuleDependency
         for text, pp, t in prepared(inputs, rng):
-            for rnd in range(2):
-                ins, outs = rand_io(rng, pp, rnd)
-                if rnd and not ins and not outs:
-                    continue
+            for ins, outs in io_rounds(rng, pp):
                 x, exc = build(pp, ins, outs)
                 if x is None:
                     obs, js = ser.result_raise(exc), "raise " + type(exc).__name__
@@ -528,10 +565,7 @@ class Graph:
     def cases(self, inputs, rng):
         import networkx as nx
         for text, pp, t in prepared(inputs, rng):
-            for rnd in range(2):
-                ins, outs = rand_io(rng, pp, rnd)
-                if rnd and not ins and not outs:
-                    continue
+            for ins, outs in io_rounds(rng, pp):
                 x, exc = build(pp, ins, outs)
                 any_true = False
                 if x is None:
@@ -670,10 +704,7 @@ class BodyAggregate:
     def cases(self, inputs, rng):
         from ngo.utils.globals import UniqueVariables
         for text, pp, _ in prepared(inputs, rng):
-            for rnd in range(2):
-                ins, outs = rand_io(rng, pp, rnd)
-                if rnd and not ins and not outs:
-                    continue
+            for ins, outs in io_rounds(rng, pp):
                 x, _exc = build(pp, ins, outs)
                 if x is None:
                     continue
@@ -707,10 +738,7 @@ class ReplaceInsideAgg:
 
     def cases(self, inputs, rng):
         for text, pp, _ in prepared(inputs, rng):
-            for rnd in range(2):
-                ins, outs = rand_io(rng, pp, rnd)
-                if rnd and not ins and not outs:
-                    continue
+            for ins, outs in io_rounds(rng, pp):
                 x, _exc = build(pp, ins, outs)
                 if x is None:
                     continue
@@ -735,10 +763,7 @@ class ProgramStep:
 
     def cases(self, inputs, rng):
         for text, pp, t in prepared(inputs, rng):
-            for rnd in range(2):
-                ins, outs = rand_io(rng, pp, rnd)
-                if rnd and not ins and not outs:
-                    continue
+            for ins, outs in io_rounds(rng, pp):
                 x, exc = build(pp, ins, outs)
                 before = [str(s) for s in pp]
                 if x is None:
@@ -820,10 +845,7 @@ class Execute:
     def cases(self, inputs, rng):
         from ngo.inline import InlineTranslator
         for text, pp, t in prepared(inputs, rng):
-            for rnd in range(2):
-                ins, outs = rand_io(rng, pp, rnd)
-                if rnd and not ins and not outs:
-                    continue
+            for ins, outs in io_rounds(rng, pp):
                 before = [str(s) for s in pp]
                 obs, js, r = observe(lambda: InlineTranslator(pp, list(ins), list(outs)).execute(list(pp)),  # pylint: disable=cell-var-from-loop
                                      conv_stmts)
